@@ -726,7 +726,6 @@ func main() {
 		c.NonTrivial()
 	})
 
-	// lower dimensions: multi-point (count weighted) and line strings (length weighted)
 	// a bound is measured as the ring of its four corners - also when its corners are the wrong way round (Pad with a
 	// negative amount, a literal with swapped corners) or coincide
 	bvals := []float64{-2, 0, 1, 3}
@@ -760,6 +759,7 @@ func main() {
 			c.NonTrivial()
 		}
 	})
+	// lower dimensions: multi-point (count weighted) and line strings (length weighted)
 	r.Explore("points-lines", "multi-points of 1..3 lattice points and line strings of 2..3 lattice points (axis-aligned / 3-4-5 steps so lengths are exact): centroid is the count- / length-weighted mean; collections of only such members", mc.Opts{MaxDev: -1}, func(c *mc.Ctx) {
 		t := c.Choose(len(transforms))
 		scale := float64(transforms[t].scale)
